@@ -152,6 +152,12 @@ def build(tier, rng):
         "bytes-update": lambda: CryptContext(["pbkdf2_sha256"]).update(pbkdf2_sha256__salt=b"abcdefgh"),
         "bytes-category": lambda: CryptContext(["sha256_crypt"], admin__sha256_crypt__salt=b"abcdefgh"),
         "int": lambda: CryptContext(["sha256_crypt"], sha256_crypt__salt=5),
+        # falsy values pin a salt too (HasSalt.using treats anything but None as a fixed salt)
+        "empty-str": lambda: CryptContext(["sha256_crypt"], sha256_crypt__salt=""),
+        "empty-bytes": lambda: CryptContext(["pbkdf2_sha256"], pbkdf2_sha256__salt=b""),
+        "empty-ini": lambda: CryptContext.from_string("[passlib]\nschemes = md5_crypt\nmd5_crypt__salt =\n"),
+        "empty-update": lambda: CryptContext(["md5_crypt"]).update(md5_crypt__salt=""),
+        "zero": lambda: CryptContext(["sha256_crypt"], sha256_crypt__salt=0),
     }
     for k, fn in attempts.items():
         o = outcome(fn)
